@@ -6,6 +6,8 @@ pub mod c03;
 pub mod c05;
 pub mod c06;
 pub mod c07;
+pub mod c08;
+pub mod c09;
 pub mod c10;
 pub mod c11;
 pub mod c16;
@@ -29,6 +31,8 @@ pub fn build(id: &str, tier: &str) -> Option<Check> {
         "C05" => c05::build(quick),
         "C06" => c06::build(quick),
         "C07" => c07::build(quick),
+        "C08" => c08::build(quick),
+        "C09" => c09::build(quick),
         "C10" => c10::build(quick),
         "C11" => c11::build(quick),
         "C12" => c12::build(quick),
